@@ -133,6 +133,33 @@ fn main() {
             }
             println!("events: {:?}", ev);
         }
+        "inproc" => {
+            // nlv inproc <prop> <tier> <seed> <from> <to>: run cases in this very process (no workers): used under Miri
+            if args.len() < 7 {
+                usage();
+            }
+            obs::install_panic_hook();
+            let mut check = props::make(&args[2]).unwrap_or_else(|| usage());
+            let tier = Tier::parse(&args[3]).unwrap_or_else(|| usage());
+            let seed: u64 = args[4].parse().unwrap_or(1);
+            let from: u64 = args[5].parse().unwrap_or(0);
+            let to: u64 = args[6].parse().unwrap_or(0);
+            let ctx = Ctx { seed, tier, flavour: sup::Flavour::from_env() };
+            let total = check.total_cases(&ctx);
+            let mut st = sup::Stats::default();
+            for idx in from..to.min(total) {
+                st.cur_idx = idx;
+                check.run_case(&ctx, idx, &mut st);
+            }
+            println!("inproc {} cases {}..{} evaluations={} violations={}", args[2], from, to.min(total), st.evaluations, st.violations.len());
+            for v in &st.violations {
+                println!("INPROC-VIOLATION {} :: {} :: {}", v.sig, obs::clip(&v.detail, 300), obs::clip(&v.input, 300));
+            }
+            for s in &st.inconclusive {
+                println!("INPROC-INCONCLUSIVE {}", s);
+            }
+            sup::print_substats(&st, &args[2]);
+        }
         "eval-one" => {
             // program on stdin, canonical rendering of the outcome on stdout (C16: fresh process / other build)
             obs::install_panic_hook();
